@@ -147,11 +147,18 @@ def pair_case(rep, model, r, seed, n):
     frame, mac = tx.last_frame, bytes(tx.o.mac)
     rx = B.BleRun(model, seed + 7, busio=not bool(n % 2))
     rx.step(("enter",))
-    ops = [("channel=", ch), ("receive", frame), ("read",), ("read",)] + [("temp_encode", it[1]) for it in items if it[0] == "temp"]
+    ops = [("channel=", ch)]
+    if r.random() < 0.4:
+        # the receiver has a history of its own on this channel: it advertised (a bare beacon, or something longer) before
+        ops += [("name=", r.choice([None, None, b"rx"])), ("advertise", r.choice([[], [], build_chunks([("battery", 50)])]))]
+        rep.count("receiver-advertised-first")
+    base = len(ops) - 1
+    ops += [("receive", frame), ("read",), ("read",)] + [("temp_encode", it[1]) for it in items if it[0] == "temp"]
     verdict = None
     for k, op in enumerate(ops):
         rx.world.transfers, rx.world.watchdog = 0, 20000
         res = rx.step(op)
+        k -= base
         if op[0] == "receive" and res[0] != 0 and verdict is None:
             verdict = ("C19/available-raised", "%r on a packet advertised by FakeBLE" % rx.last_exc)
         if k == 2 and verdict is None:
